@@ -324,7 +324,7 @@ def run_canary(spec, rep, timeout_s):
     try:
         spec.ensures = lambda I, a, out: canary(I, a, out)
         refuted = False
-        for case in spec.cases()[:1]:
+        for case in spec.cases()[-1:]:
             results = H.explore(spec, case)
             work = [(ob, r.inputs, timeout_s) for r in results if not r.undecided and not r.dropped for ob in r.obligations
                     if ob.kind == "ensures"]
@@ -372,6 +372,46 @@ def run_lemma(lem, rep, timeout_s, baseline):
     rep.functions.append(fn_entry)
 
 
+_ITEMS = None
+
+
+def _run_item(i):
+    items, prop, tier, seed, timeout_s, baseline, findings = _ITEMS
+    it = items[i]
+    rep = Report(prop, tier, seed)
+    try:
+        if isinstance(it, H.Lemma):
+            run_lemma(it, rep, timeout_s, baseline)
+        else:
+            run_spec(it, rep, timeout_s, baseline, findings)
+            run_canary(it, rep, timeout_s)
+            n = it.cross_check if tier == "quick" else it.cross_check * 5
+            if n:
+                rep.cross_checked += cross_check(it, rep, n)
+    except Exception:
+        rep.undecided.append({"spec": it.name, "why": "checker crash: " + traceback.format_exc()[-2000:]})
+    return rep
+
+
+def merge_report(rep, p):
+    rep.functions += p.functions
+    for k in ("obligations", "discharged", "bounded_obligations", "solver_time", "paths", "sym_paths", "cross_checked"):
+        setattr(rep, k, getattr(rep, k) + getattr(p, k))
+    for k, v in p.by_solver.items():
+        rep.by_solver[k] = rep.by_solver.get(k, 0) + v
+    rep.violations += p.violations
+    for f in p.known:
+        if not any(k["id"] == f["id"] for k in rep.known):
+            rep.known.append(f)
+    rep.undecided += p.undecided
+    rep.assumptions |= p.assumptions
+    rep.samples += p.samples[:2]
+    rep.discharged_names |= p.discharged_names
+    rep.bounds += p.bounds
+    rep.canaries += p.canaries
+    rep.max_ob_time = max(rep.max_ob_time, p.max_ob_time)
+
+
 def main(argv=None):
     import argparse
     ap = argparse.ArgumentParser()
@@ -398,18 +438,19 @@ def main(argv=None):
     items = mod.contracts(tier)
     if args.only:
         items = [x for x in items if x.name == args.only]
-    for it in items:
-        try:
-            if isinstance(it, H.Lemma):
-                run_lemma(it, rep, timeout_s, baseline)
-            else:
-                run_spec(it, rep, timeout_s, baseline, findings)
-                run_canary(it, rep, timeout_s)
-                n = it.cross_check if tier == "quick" else it.cross_check * 5
-                if n:
-                    rep.cross_checked += cross_check(it, rep, n)
-        except Exception:
-            rep.undecided.append({"spec": it.name, "why": "checker crash: " + traceback.format_exc()[-2000:]})
+    global _ITEMS
+    _ITEMS = (items, args.prop, tier, seed, timeout_s, baseline, findings)
+    jobs = int(os.environ.get("VERIF_JOBS", "0")) or min(16, os.cpu_count() or 4)
+    if len(items) > 1 and jobs > 1:
+        import multiprocessing
+        os.environ["VERIF_JOBS_INNER"] = "1"
+        ctx = multiprocessing.get_context("fork")
+        with ctx.Pool(min(jobs, len(items))) as pool:
+            parts = pool.map(_run_item, range(len(items)), chunksize=1)
+    else:
+        parts = [_run_item(i) for i in range(len(items))]
+    for part in parts:
+        merge_report(rep, part)
     extra = getattr(mod, "extra_checks", None)
     if extra:
         extra(rep, tier)
